@@ -811,3 +811,46 @@ Theorem state_node_independent E ops ops' : Forall2 op_sim ops ops' -> forall s,
 Proof.
   induction 1 as [|o o' r r' Ho _ IH]; intros s; [done|]. simpl. rewrite (vstep_sim E s o o' Ho). apply IH.
 Qed.
+
+(* ---------- one tracker per external (decoded) transaction ---------- *)
+
+Lemma created_by E s o s' r n t' :
+  step E s o = (s', r) -> ongoing s !! n = None -> ongoing s' !! n = Some t' ->
+  exists a x, (o = Lock a x \/ (o = Redeem a x /\ failed s !! n = None)) /\
+              n = x_name (e_tx E x) /\ t_tx t' = x /\ t_owner t' = a /\ accepted E x /\ passed s !! n = None.
+Proof.
+  destruct o as [snd x|snd x|n0 l v idx b|f t0 amt|nl names]; simpl; intros Hstep Hn Hn'.
+  - unfold do_lock in Hstep. destruct (x_lock (e_tx E x)) as [amt|] eqn:Hx; [|injection Hstep as <- _; congruence].
+    destruct (negb _); [injection Hstep as <- _; congruence|].
+    destruct (has (ongoing s) _) eqn:Ho; simpl in Hstep; [injection Hstep as <- _; congruence|].
+    destruct (has (passed s) _) eqn:Hp; simpl in Hstep; [injection Hstep as <- _; congruence|].
+    injection Hstep as <- _. simpl in Hn'. apply has_false in Hp.
+    destruct (decide (n = x_name (e_tx E x))) as [->|Hne]; [|rewrite lookup_insert_ne in Hn' by done; congruence].
+    rewrite lookup_insert in Hn'. injection Hn' as <-. exists snd, x. simpl.
+    repeat split; try done; [by left|left; congruence].
+  - unfold do_redeem in Hstep. destruct (x_redeem (e_tx E x)) as [amt|] eqn:Hx; [|injection Hstep as <- _; congruence].
+    destruct (_ <? 0); [injection Hstep as <- _; congruence|]. destruct (_ <? 0); [injection Hstep as <- _; congruence|].
+    destruct (has (ongoing s) _) eqn:Ho; simpl in Hstep; [injection Hstep as <- _; congruence|].
+    destruct (has (failed s) _) eqn:Hf; simpl in Hstep; [injection Hstep as <- _; congruence|].
+    destruct (has (passed s) _) eqn:Hp; simpl in Hstep; [injection Hstep as <- _; congruence|].
+    injection Hstep as <- _. simpl in Hn'. apply has_false in Hp, Hf.
+    destruct (decide (n = x_name (e_tx E x))) as [->|Hne]; [|rewrite lookup_insert_ne in Hn' by done; congruence].
+    rewrite lookup_insert in Hn'. injection Hn' as <-. exists snd, x. simpl.
+    repeat split; try done; [by right|right; congruence].
+  - exfalso. apply report_cases in Hstep as [->|(t1 & t1' & Ht1 & _ & _ & _ & _ & Hsh)]; [congruence|].
+    destruct (decide (n = n0)) as [->|Hne]; [congruence|].
+    inversion Hsh; subst; simpl in Hn'; rewrite lookup_insert_ne in Hn' by done; congruence.
+  - exfalso. unfold do_transfer in Hstep. repeat case_match; injection Hstep as <- _; simpl in Hn'; congruence.
+  - exfalso. destruct (end_block_back _ _ _ _ _ _ _ Hstep Hn') as (t1 & Ht1 & _). congruence.
+Qed.
+
+Theorem one_tracker_per_external_tx E s o s' r n t' :
+  ext_canonical E ->
+  step E s o = (s', r) -> ongoing s !! n = None -> ongoing s' !! n = Some t' ->
+  forall x0, accepted E x0 -> x_ext (e_tx E x0) = x_ext (e_tx E (t_tx t')) ->
+    x_name (e_tx E x0) = n /\ ongoing s !! x_name (e_tx E x0) = None /\ passed s !! x_name (e_tx E x0) = None.
+Proof.
+  intros Hcan Hstep Hn Hn' x0 Hacc Hext.
+  destruct (created_by _ _ _ _ _ _ _ Hstep Hn Hn') as (a & x & _ & -> & Htx & _ & Hax & Hp).
+  rewrite Htx in Hext. rewrite (Hcan x0 x Hacc Hax Hext). done.
+Qed.
